@@ -255,6 +255,11 @@ class Ctx:
             "FAIL" if rc else "PASS", self.pid, self.tier, self.seed, self.evaluations, self.accepted, self.states,
             self.transitions, nviol, sum(v[0] for v in self.kf_hits.values()), wall))
         common.rmtree(self.work)
+        try:            # (the package the real plugin generated for the Wide schema, if this check built one)
+            from . import genworld
+            genworld.cleanup()
+        except Exception:
+            pass
         return rc
 
 
